@@ -106,7 +106,7 @@ func ruleRecordingGuard(c *Ctx, ix *PkgIndex, rule string) {
 		k := "sdk/trace|" + w.f.Name + "|" + w.what + " only while recording"
 		cnt[k]++
 		key := k + " #" + itoa(cnt[k])
-		if r, ok := recordingGuardExempt[outer.Name]; ok {
+		if r, ok := exemptReason(ix, recordingGuardExempt, outer); ok {
 			c.OK(rule, key, at(ix.M, w.n.Pos()), "exempt: "+r)
 			continue
 		}
@@ -167,6 +167,10 @@ func ruleSnapshotComplete(c *Ctx, ix *PkgIndex, rule string) {
 		match := false
 		for _, alt := range strings.Split(w, "|") {
 			if src == alt {
+				match = true
+			}
+			// the same field path under today's names (renamed fields, fields moved into a nested struct)
+			if !strings.Contains(alt, "(") && src == strings.TrimPrefix(resolvePath(ix.Pkg, "recordingSpan", "."+alt), ".") {
 				match = true
 			}
 		}
@@ -331,7 +335,7 @@ func c04(c *Ctx) {
 		cnt := map[string]int{}
 		for _, f := range ix.All {
 			outer := ix.Outer(f)
-			if _, ex := recordingGuardExempt[outer.Name]; ex {
+			if _, ex := exemptReason(ix, recordingGuardExempt, outer); ex {
 				continue
 			}
 			var g *FG
@@ -1244,4 +1248,21 @@ func siblingGuardGap(info *types.Info, guard, value ast.Expr) string {
 	}
 	sort.Strings(missing)
 	return strings.Join(missing, ", ")
+}
+
+// exemptReason: is f one of the functions named in the exemption table — under today's name (the table is written with the
+// pinned tree's names and resolved through the anchors, so a renamed or moved function keeps its exemption)?
+func exemptReason(ix *PkgIndex, table map[string]string, f *FuncInfo) (string, bool) {
+	if f == nil {
+		return "", false
+	}
+	if r, ok := table[f.Name]; ok {
+		return r, true
+	}
+	for name, r := range table {
+		if g := ix.Func(name); g != nil && (g == f || (g.Obj != nil && g.Obj == f.Obj)) {
+			return r, true
+		}
+	}
+	return "", false
 }
